@@ -116,6 +116,38 @@ def module_project(uses, nsub, prog_uses, ext_uses, thirdparty, nograph=None, en
     return files, rel
 
 
+def file_project(deps, samenames, with_prog):
+    """one module per source file; deps: set of (i, j) = the module in file i uses the module in file j.  With `samenames`
+    the files 2 and 3 carry the same name in two directories (FORD tells them apart by a number: unit.f90, unit.f90~2)."""
+    path = {1: "src/u1.f90", 2: "src/a/unit.f90" if samenames else "src/u2.f90", 3: "src/b/unit.f90" if samenames else "src/u3.f90", 4: "src/u4.f90"}
+    ident = {1: "sourcefile~u1.f90", 2: "sourcefile~unit.f90" if samenames else "sourcefile~u2.f90", 3: "sourcefile~unit.f90~2" if samenames else "sourcefile~u3.f90",
+             4: "sourcefile~u4.f90"}
+    files, rel = {}, dict(fdeps=set(), nodes=set())
+    for i in (1, 2, 3, 4):
+        L = [f"module fm{i}", f"!! module of file {i}"] + [f"use fm{j}" for (a, j) in sorted(deps) if a == i] + ["implicit none", f"integer :: fv{i}", f"end module fm{i}"]
+        files[path[i]] = "\n".join(L) + "\n"
+        rel["nodes"].add(ident[i])
+        for (a, j) in deps:
+            if a == i:
+                rel["fdeps"].add((ident[i], ident[j]))
+    if with_prog:
+        files["src/zprog.f90"] = "program zprog\n!! program\nuse fm2\nuse fm3\nimplicit none\nend program zprog\n"
+        rel["nodes"].add("sourcefile~zprog.f90")
+        rel["fdeps"] |= {("sourcefile~zprog.f90", ident[2]), ("sourcefile~zprog.f90", ident[3])}
+    return files, rel
+
+
+def gen_file_cases(tier):
+    pairs = [(2, 1), (3, 1), (3, 2), (4, 2), (4, 3), (2, 3)]
+    for k in range(len(pairs) + 1):
+        for deps in itertools.combinations(pairs, k):
+            if (3, 2) in deps and (2, 3) in deps:
+                continue  # modules using each other
+            for samenames in (False, True):
+                for with_prog in (False, True) if tier == "thorough" or k <= 3 else (True,):
+                    yield ("files", tuple(deps), samenames, with_prog)
+
+
 def gen_module_cases(tier):
     pairs = [(2, 1), (3, 1), (3, 2)]
     for k in range(len(pairs) + 1):
@@ -313,11 +345,11 @@ def graphs_of(r, family):
         g = getattr(p, attr, None)
         if g is not None and g != "" and hasattr(g, "dot"):
             out[(name, "")] = parse_dot(g.dot.source)
-    ents = list(p.modules) + list(p.submodules) + list(p.types) + list(p.procedures) + list(p.programs)
+    ents = list(p.modules) + list(p.submodules) + list(p.types) + list(p.procedures) + list(p.programs) + (list(p.files) if family == "files" else [])
     for e in ents:
         d = e.get_dir() or "none"
         ident = f"{d}~{e.ident}"
-        for attr in ("usesgraph", "usedbygraph", "callsgraph", "calledbygraph", "inhergraph", "inherbygraph"):
+        for attr in ("usesgraph", "usedbygraph", "callsgraph", "calledbygraph", "inhergraph", "inherbygraph", "efferentgraph", "afferentgraph"):
             g = getattr(e, attr, None)
             if g is not None and hasattr(g, "dot"):
                 out[(ident, attr)] = parse_dot(g.dot.source)
@@ -351,6 +383,15 @@ def expected_graphs(family, rel, maxdepth, maxnodes):
                 exp[(n, "usedbygraph")] = bfs(n, inv, maxdepth, maxnodes)
         nodes = set(rel["nodes"]) | {x for e in U for x in e}
         exp[("project:use", "")] = (nodes, {(a, b, "dashed") for (a, b) in U} | {(a, b, "solid") for (a, b) in A})
+    elif family == "files":
+        D = rel["fdeps"]
+        fwd = lambda n: [(b, (a, b, "dashed")) for (a, b) in sorted(D) if a == n]  # noqa
+        inv = lambda n: [(a, (a, b, "dashed")) for (a, b) in sorted(D) if b == n]  # noqa
+        for n in sorted(rel["nodes"]):
+            exp[(n, "efferentgraph")] = bfs(n, fwd, maxdepth, maxnodes)
+            exp[(n, "afferentgraph")] = bfs(n, inv, maxdepth, maxnodes)
+        # (the project-wide file graph draws its arrows from the file depended on to the dependent file)
+        exp[("project:file", "")] = (set(rel["nodes"]), {(b, a, "solid") for (a, b) in D})
     elif family == "types":
         E, C = rel["ext"], rel["comp"]
         fwd = lambda n: [(b, (a, b, "dashed")) for (a, b) in sorted(C) if a == n] + [(b, (a, b, "solid")) for (a, b) in sorted(E) if a == n]  # noqa
@@ -384,6 +425,8 @@ def run_case(st: Stats, case, limits, nograph=None, ppar=False, entmeta=None):
         return run_tbp_case(st, case)
     if family == "modules":
         files, rel = module_project(set(case[1]), case[2], case[3], case[4], case[5], nograph, entmeta)
+    elif family == "files":
+        files, rel = file_project(set(case[1]), case[2], case[3])
     elif family == "types":
         files, rel = type_project(dict(case[1]), set(case[2]), nograph, entmeta)
     else:
@@ -483,6 +526,8 @@ def gen_jobs(tier):
     limits = LIMITS_QUICK if tier == "quick" else LIMITS_FULL
     jobs = []
     for c in itertools.chain(gen_module_cases(tier), gen_type_cases(tier), gen_proc_cases(tier)):
+        jobs.append((c, limits, None, False))
+    for c in gen_file_cases(tier):
         jobs.append((c, limits, None, False))
     # show_proc_parent on a slice, graph: false on each single entity of a few base shapes
     for c in list(gen_proc_cases(tier))[:: 16 if tier == "quick" else 4]:
